@@ -11,7 +11,7 @@ use serde_json::json;
 
 use crate::{hist::ShardArgs, hs::TW};
 
-pub const POOL: [&str; 12] = [
+pub const POOL: [&str; 13] = [
     r"^a (\d+)$",
     r"^a (.*)$",
     r"^(a|b) (\d+)?$",
@@ -24,6 +24,8 @@ pub const POOL: [&str; 12] = [
     r"(\d+) (é|apples?)",
     // more than nine groups, one of them named and optional
     r"^(1)(2)(3)(4)(5)(6)(7)(8)(9)(a)(?P<k>b)?(c)$",
+    // a top-level alternation: `^` binds to the first branch, `$` to the last
+    r"^x1|y2$",
     // compiled with `RegexBuilder::case_insensitive(true)` (see `compile`): options are not
     // part of the pattern text
     r"^hello (w+)$",
@@ -37,10 +39,10 @@ pub fn compile(i: usize) -> Regex {
         Regex::new(POOL[i]).unwrap()
     }
 }
-pub const TEXTS: [&str; 18] = [
+pub const TEXTS: [&str; 20] = [
     "a 1", "a x", "b 2", "b ", "foo is 42", "xyz", "xz", "éßü", "", "zzz", "a 12",
     // unanchored matches that start at an offset > 0 (after ASCII and after multi-byte text)
-    "I have 12 apples", "ßß 7 é", "a 3 apple pie", "123456789ac", "123456789abc", "HELLO WWW", "hello ww",
+    "I have 12 apples", "ßß 7 é", "a 3 apple pie", "123456789ac", "123456789abc", "HELLO WWW", "hello ww", "x1 and more", "it ends in y2",
 ];
 
 thread_local! {
@@ -58,10 +60,10 @@ macro_rules! fns {
     ($($n:literal),*) => { [$(marker::<$n> as cucumber::Step<TW>),*] };
 }
 
-pub fn step_fns() -> [cucumber::Step<TW>; 52] {
+pub fn step_fns() -> [cucumber::Step<TW>; 56] {
     fns!(
         0, 1, 2, 3, 4, 5, 6, 7, 8, 9, 10, 11, 12, 13, 14, 15, 16, 17, 18, 19, 20, 21, 22, 23, 24, 25,
-        26, 27, 28, 29, 30, 31, 32, 33, 34, 35, 36, 37, 38, 39, 40, 41, 42, 43, 44, 45, 46, 47, 48, 49, 50, 51
+        26, 27, 28, 29, 30, 31, 32, 33, 34, 35, 36, 37, 38, 39, 40, 41, 42, 43, 44, 45, 46, 47, 48, 49, 50, 51, 52, 53, 54, 55
     )
 }
 
@@ -144,7 +146,7 @@ fn permutations(n: usize) -> Vec<Vec<usize>> {
     out
 }
 
-fn build(defs: &[Def], fns: &[cucumber::Step<TW>; 52], res: &[Regex]) -> Collection<TW> {
+fn build(defs: &[Def], fns: &[cucumber::Step<TW>; 56], res: &[Regex]) -> Collection<TW> {
     let mut c = Collection::new();
     for d in defs {
         let (re, f) = (res[d.re].clone(), fns[d.fn_index()]);
@@ -182,7 +184,7 @@ fn ref_matches(re: &Regex, text: &str) -> Vec<(Option<String>, String)> {
 /// permutation, step type and text. Returns (evaluations, ambiguous cases, violation).
 pub fn check_set(
     defs: &[Def],
-    fns: &[cucumber::Step<TW>; 52],
+    fns: &[cucumber::Step<TW>; 56],
     res: &[Regex],
     types: &[u8],
 ) -> (usize, usize, Option<String>) {
